@@ -991,6 +991,16 @@ func ruleCopierStructure(c *core.Ctx) {
 			if len(rs.Results) != 2 || core.ObjOf(info, rs.Results[0]) != none {
 				continue
 			}
+			// an error return: the recipe is not used (the zero value spelled by its name)
+			if eo := core.ObjOf(info, rs.Results[1]); eo != nil && core.IsErrorType(eo.Type()) {
+				failing := g.GuardedBy(r, func(a core.Atom) bool {
+					cmp, isCmp := a.AsCmp()
+					return isCmp && cmp.Op == token.NEQ && core.IsNil(info, cmp.R) && core.ObjOf(info, cmp.L) == eo
+				})
+				if failing {
+					continue
+				}
+			}
 			n++
 			o.Count(1)
 			o.At(fn.Site(rs, "returns cryptNone"))
